@@ -286,7 +286,13 @@ impl Prop for C13 {
                 let npts = 2 + cx.rng.usize(11);
                 let w = cx.rng.range(1, 40);
                 let origin = (cx.rng.range(-10_000, 10_000), cx.rng.range(-10_000, 10_000));
-                let pts = manhattan_path(&mut cx.rng, npts, 60, origin);
+                let mut pts = manhattan_path(&mut cx.rng, npts, 60, origin);
+                // one path in twelve is a dot: all its points coincide (the GDSII idiom for a square pad); its only segment has length zero,
+                // and the point itself is within half the width of it
+                if cx.rng.chance(1, 12) {
+                    pts = vec![origin; 2 + cx.rng.usize(2)];
+                    cx.count("dot_paths");
+                }
                 let mut qs = Vec::new();
                 for p in &pts {
                     for dx in [-(w / 2) - 1, -(w / 2), -1, 0, 1, w / 2, w / 2 + 1, (w + 1) / 2] {
